@@ -2088,3 +2088,445 @@ pub fn lit_spawn_stagger(full: bool) -> Vec<Program> {
     }
     out
 }
+
+/// LOCK-value: the value protected by a Mutex / RwLock. Children run lock sections that read and
+/// overwrite the protected value through their guard; after the joins main reads it back through
+/// `get_mut` and `into_inner`. Every section's read must return what the previous section (in the
+/// executed order) wrote, and the final calls return the last write.
+pub fn lock_value_family(full: bool) -> Vec<Program> {
+    let mut out = vec![];
+    // ---- mutex
+    let mblock = |kind: usize, v: u64| -> Vec<Op> {
+        match kind {
+            0 => vec![K::Lock { m: 0 }.into(), K::GGet { m: 0 }.into(), K::GSet { m: 0, v }.into(), K::Unlock { m: 0 }.into()],
+            1 => vec![K::Lock { m: 0 }.into(), K::GSet { m: 0, v }.into(), K::GGet { m: 0 }.into(), K::Unlock { m: 0 }.into()],
+            _ => vec![K::TryLock { m: 0 }.into(), K::GGet { m: 0 }.when(0, Res::Ok(0)), K::GSet { m: 0, v }.when(0, Res::Ok(0)), K::Unlock { m: 0 }.when(0, Res::Ok(0))],
+        }
+    };
+    let tails_m: Vec<(&str, Vec<Op>)> = vec![
+        ("gm+ii", vec![K::MGetMut { m: 0 }.into(), K::MIntoInner { m: 0 }.into()]),
+        ("ii", vec![K::MIntoInner { m: 0 }.into()]),
+        ("lock+gm", vec![K::Lock { m: 0 }.into(), K::GGet { m: 0 }.into(), K::Unlock { m: 0 }.into(), K::MGetMut { m: 0 }.into()]),
+    ];
+    let om = Objs { mutexes: 1, ..Default::default() };
+    for nch in 2..=3usize {
+        let total = 3usize.pow(nch as u32);
+        for code in 0..total {
+            let kinds: Vec<usize> = (0..nch).map(|i| code / 3usize.pow(i as u32) % 3).collect();
+            // children are interchangeable up to their values: keep sorted kind vectors only
+            if kinds.windows(2).any(|w| w[0] > w[1]) {
+                continue;
+            }
+            for mid in 0..2 {
+                for (ti, (tn, tail)) in tails_m.iter().enumerate() {
+                    if !full && nch == 3 && (mid == 1 || ti != 0) {
+                        continue;
+                    }
+                    let children: Vec<Vec<Op>> = kinds.iter().enumerate().map(|(i, k)| mblock(*k, 10 * (i as u64 + 1))).collect();
+                    let main_mid = if mid == 1 { mblock(0, 5) } else { vec![] };
+                    out.push(with_main(&format!("LOCKVAL-m-{:?}-{}-{}", kinds, mid, tn), om.clone(), vec![], children, main_mid, tail.clone()));
+                }
+            }
+        }
+    }
+    // two sections per child
+    for k1 in 0..3 {
+        for k2 in 0..3 {
+            for k3 in 0..3 {
+                let mut c1 = mblock(k1, 10);
+                let off = c1.len();
+                let mut second = mblock(k2, 11);
+                for op in second.iter_mut() {
+                    if let Some(g) = op.g.as_mut() {
+                        g.idx += off;
+                    }
+                }
+                c1.extend(second);
+                let c2 = mblock(k3, 20);
+                out.push(with_main(&format!("LOCKVAL-m2-{}{}{}", k1, k2, k3), om.clone(), vec![], vec![c1, c2], vec![], tails_m[0].1.clone()));
+            }
+        }
+    }
+    // ---- rwlock
+    let lblock = |kind: usize, v: u64| -> Vec<Op> {
+        match kind {
+            0 => vec![K::Write { l: 0 }.into(), K::LGet { l: 0 }.into(), K::LSet { l: 0, v }.into(), K::UnlockW { l: 0 }.into()],
+            1 => vec![K::Read { l: 0 }.into(), K::LGet { l: 0 }.into(), K::UnlockR { l: 0 }.into()],
+            2 => vec![K::TryWrite { l: 0 }.into(), K::LSet { l: 0, v }.when(0, Res::Ok(0)), K::LGet { l: 0 }.when(0, Res::Ok(0)), K::UnlockW { l: 0 }.when(0, Res::Ok(0))],
+            _ => vec![K::TryRead { l: 0 }.into(), K::LGet { l: 0 }.when(0, Res::Ok(0)), K::UnlockR { l: 0 }.when(0, Res::Ok(0))],
+        }
+    };
+    let tails_l: Vec<(&str, Vec<Op>)> = vec![
+        ("gm+ii", vec![K::LGetMut { l: 0 }.into(), K::LIntoInner { l: 0 }.into()]),
+        ("ii", vec![K::LIntoInner { l: 0 }.into()]),
+        ("read+gm", vec![K::Read { l: 0 }.into(), K::LGet { l: 0 }.into(), K::UnlockR { l: 0 }.into(), K::LGetMut { l: 0 }.into()]),
+    ];
+    let ol = Objs { rwlocks: 1, ..Default::default() };
+    for nch in 2..=3usize {
+        let total = 4usize.pow(nch as u32);
+        for code in 0..total {
+            let kinds: Vec<usize> = (0..nch).map(|i| code / 4usize.pow(i as u32) % 4).collect();
+            if kinds.windows(2).any(|w| w[0] > w[1]) {
+                continue;
+            }
+            // at least one writer, otherwise the value never changes
+            if !kinds.iter().any(|k| *k == 0 || *k == 2) {
+                continue;
+            }
+            for mid in 0..3 {
+                for (ti, (tn, tail)) in tails_l.iter().enumerate() {
+                    if !full && nch == 3 && (mid != 0 || ti != 0) {
+                        continue;
+                    }
+                    let children: Vec<Vec<Op>> = kinds.iter().enumerate().map(|(i, k)| lblock(*k, 10 * (i as u64 + 1))).collect();
+                    let main_mid = match mid {
+                        0 => vec![],
+                        1 => lblock(0, 5),
+                        _ => lblock(1, 0),
+                    };
+                    out.push(with_main(&format!("LOCKVAL-l-{:?}-{}-{}", kinds, mid, tn), ol.clone(), vec![], children, main_mid, tail.clone()));
+                }
+            }
+        }
+    }
+    out
+}
+
+/// LIT-coh3: coherence across a happens-before edge through a *third* thread. Thread A accesses
+/// `x` and then publishes a flag, thread B subscribes to the flag and then accesses `x` once or
+/// twice, thread C accesses `x` on its own (the store A reads from / B competes with). With
+/// release/acquire (or fences) between A and B the four coherence shapes CoRR / CoRW / CoWR /
+/// CoWW must hold across threads; without synchronisation the extra outcomes must show up.
+/// `full` adds the unsynchronised variant, RMW publication and a two-hop chain A -> B -> B'.
+pub fn lit_coh3(full: bool) -> Vec<Program> {
+    let xops: Vec<Op> = vec![ld(0, Rlx), st(0, 0, Rlx), swap(0, 0, Rlx)];
+    let mut syncs: Vec<(Vec<Op>, Vec<Op>)> = vec![
+        (vec![st(1, 0, Rel)], vec![ld(1, Acq)]),
+        (vec![fence(Rel), st(1, 0, Rlx)], vec![ld(1, Rlx), fence(Acq)]),
+    ];
+    if full {
+        syncs.push((vec![st(1, 0, Rlx)], vec![ld(1, Rlx)]));
+        syncs.push((vec![swap(1, 0, AcqRel)], vec![fadd(1, 0, AcqRel)]));
+        syncs.push((vec![st(1, 0, Sc)], vec![ld(1, Sc)]));
+    }
+    let one: Vec<Vec<Op>> = xops.iter().map(|o| vec![o.clone()]).collect();
+    let two: Vec<Vec<Op>> = xops.iter().flat_map(|a| xops.iter().map(move |b| vec![a.clone(), b.clone()])).collect();
+    let mut out = vec![];
+    let mut seen = HashSet::new();
+    let mut push = |ch: Vec<Vec<Op>>, nat: usize, out: &mut Vec<Program>| {
+        // at least two writes to x, or nothing can be ordered
+        let writes = ch.iter().flatten().filter(|o| matches!(o.k, K::Store { a: 0, .. } | K::Swap { a: 0, .. })).count();
+        if writes < 2 {
+            return;
+        }
+        let ch = canon_atomic_children(ch, nat);
+        let p = finish_atomic_program("LIT-coh3", ch, Rlx);
+        if seen.insert(p.text()) {
+            out.push(p);
+        }
+    };
+    for (publ, subs) in &syncs {
+        for a1 in &one {
+            let a: Vec<Op> = a1.iter().cloned().chain(publ.iter().cloned()).collect();
+            let shapes: Vec<(&Vec<Vec<Op>>, &Vec<Vec<Op>>)> = if full { vec![(&two, &one), (&one, &two), (&two, &two)] } else { vec![(&two, &one), (&one, &two)] };
+            for (bs, cs) in shapes {
+                for b1 in bs.iter() {
+                    let b: Vec<Op> = subs.iter().cloned().chain(b1.iter().cloned()).collect();
+                    for c in cs.iter() {
+                        push(vec![a.clone(), b.clone(), c.clone()], 2, &mut out);
+                    }
+                }
+            }
+        }
+    }
+    if full {
+        // two hops: A publishes f, B republishes g, B' accesses x; C writes x
+        let hop: Vec<(Vec<Op>, Vec<Op>, Vec<Op>, Vec<Op>)> = vec![
+            (vec![st(1, 0, Rel)], vec![ld(1, Acq)], vec![st(2, 0, Rel)], vec![ld(2, Acq)]),
+            (vec![st(1, 0, Rel)], vec![ld(1, Rlx)], vec![st(2, 0, Rel)], vec![ld(2, Acq)]),
+            (vec![st(1, 0, Rel)], vec![ld(1, Acq)], vec![st(2, 0, Rlx)], vec![ld(2, Acq)]),
+        ];
+        for (p1, s1, p2, s2) in &hop {
+            for a1 in &one {
+                let a: Vec<Op> = a1.iter().cloned().chain(p1.iter().cloned()).collect();
+                let b: Vec<Op> = s1.iter().cloned().chain(p2.iter().cloned()).collect();
+                for b1 in one.iter().chain(two.iter()) {
+                    let b2: Vec<Op> = s2.iter().cloned().chain(b1.iter().cloned()).collect();
+                    for c in &one {
+                        push(vec![a.clone(), b.clone(), b2.clone(), c.clone()], 3, &mut out);
+                    }
+                }
+            }
+        }
+    }
+    out
+}
+
+/// WAIT-rounds: one primitive reused for several notify / wait rounds, the rounds separated by
+/// write-once acknowledgement flags (so that no notification can be merged with the next one and
+/// the program never deadlocks). Per-object state that must survive a completed round - the one
+/// spurious return of a `Notify`, the park token, the condvar queue - is exercised a second and a
+/// third time.
+pub fn wait_rounds() -> Vec<Program> {
+    let mut out = vec![];
+    for rounds in 2..=3usize {
+        for kind in 0..3 {
+            // kind 0: Notify, 1: park/unpark, 2: condvar with a predicate under the mutex
+            for waiter_is_main in [false, true] {
+                if kind == 1 && !waiter_is_main {
+                    // the unparker needs the waiter's handle: main can only unpark children after
+                    // the spawn, which is the case below (waiter = child 1, notifier = main)
+                }
+                let mut w: Vec<Op> = vec![];
+                let mut n: Vec<Op> = vec![];
+                let wt = if waiter_is_main { 0 } else { 1 };
+                for i in 0..rounds {
+                    match kind {
+                        0 => {
+                            w.push(K::NWait { n: 0 }.into());
+                            n.push(K::NNotify { n: 0 }.into());
+                        }
+                        1 => {
+                            w.push(K::Park.into());
+                            n.push(K::Unpark { t: wt }.into());
+                        }
+                        _ => {
+                            // waiter: lock; if pred != i+1 { wait }; unlock   (pred is a round counter)
+                            let base = w.len();
+                            w.push(K::Lock { m: 0 }.into());
+                            w.push(ld(rounds - 1, Rlx));
+                            w.push(K::Wait { cv: 0, m: 0 }.when(base + 1, Res::V(i as u64)));
+                            w.push(K::Unlock { m: 0 }.into());
+                            n.push(K::Lock { m: 0 }.into());
+                            n.push(st(rounds - 1, i as u64 + 1, Rlx));
+                            n.push(K::NotifyOne { cv: 0 }.into());
+                            n.push(K::Unlock { m: 0 }.into());
+                        }
+                    }
+                    if i + 1 < rounds {
+                        w.push(st(i, 1, Sc));
+                        n.push(K::Await { a: i, mo: Sc, want: 1 }.into());
+                    }
+                }
+                let objs = Objs { atomics: vec![0; rounds], notifies: 1, mutexes: 1, condvars: 1, ..Default::default() };
+                let name = format!("WAIT-rounds-{}-{}-{}", ["notify", "park", "cv"][kind], rounds, if waiter_is_main { "main" } else { "child" });
+                if waiter_is_main {
+                    out.push(with_main(&name, objs, vec![], vec![n], w, vec![]));
+                } else if kind == 1 {
+                    out.push(with_main(&name, objs, vec![], vec![w], n, vec![]));
+                } else {
+                    out.push(with_main(&name, objs.clone(), vec![], vec![w.clone()], n.clone(), vec![]));
+                    out.push(with_main(&format!("{}-2ch", name), objs, vec![], vec![w, n], vec![], vec![]));
+                }
+            }
+        }
+    }
+    out
+}
+
+/// LOCK-nested: a blocking operation *inside* a lock section. Two threads each run
+/// `acquire; inner; release`, where the inner operations form a rendezvous (recv / send,
+/// Notify wait / notify, or main joining the other thread), optionally with a third thread
+/// running a plain section. Whether the program can deadlock depends on whether the two
+/// acquisitions are compatible (two readers: never; a writer or a mutex: in some orders).
+pub fn lock_nested_family(with_third: bool) -> Vec<Program> {
+    // (acquire, release) on rwlock 0 / mutex 0; `at` = index of the acquire in the thread
+    let sect = |kind: usize, at: usize, inner: Option<K>| -> Vec<Op> {
+        let (acq, rel): (K, K) = match kind {
+            0 => (K::Read { l: 0 }, K::UnlockR { l: 0 }),
+            1 => (K::Write { l: 0 }, K::UnlockW { l: 0 }),
+            2 => (K::TryRead { l: 0 }, K::UnlockR { l: 0 }),
+            3 => (K::TryWrite { l: 0 }, K::UnlockW { l: 0 }),
+            4 => (K::Lock { m: 0 }, K::Unlock { m: 0 }),
+            _ => (K::TryLock { m: 0 }, K::Unlock { m: 0 }),
+        };
+        let tr = matches!(kind, 2 | 3 | 5);
+        let mut v: Vec<Op> = vec![acq.into()];
+        if let Some(k) = inner {
+            // the inner op runs whether or not a try-acquire succeeded (the rendezvous partner
+            // must not depend on it)
+            v.push(k.into());
+        }
+        v.push(if tr { rel.when(at, Res::Ok(0)) } else { rel.into() });
+        v
+    };
+    let objs = Objs { rwlocks: 1, mutexes: 1, chans: 1, notifies: 1, ..Default::default() };
+    let mut out = vec![];
+    for ka in 0..6 {
+        for kb in 0..6 {
+            // both on the same lock object, otherwise nothing interacts
+            if (ka < 4) != (kb < 4) {
+                continue;
+            }
+            let thirds: Vec<Option<usize>> = if with_third { std::iter::once(None).chain((0..6).filter(|k| (*k < 4) == (ka < 4)).map(Some)).collect() } else { vec![None] };
+            for third in thirds {
+                for pairing in 0..3 {
+                    let name = format!("LOCK-nested-{}{}-{}-{:?}", ka, kb, ["chan", "notify", "join"][pairing], third);
+                    match pairing {
+                        0 | 1 => {
+                            let (wi, ni) = if pairing == 0 { (K::Recv { ch: 0 }, K::Send { ch: 0, v: 7 }) } else { (K::NWait { n: 0 }, K::NNotify { n: 0 }) };
+                            let mut ch = vec![sect(ka, 0, Some(wi)), sect(kb, 0, Some(ni))];
+                            if let Some(k3) = third {
+                                ch.push(sect(k3, 0, None));
+                            }
+                            out.push(with_main(&name, objs.clone(), vec![], ch, vec![], vec![]));
+                        }
+                        _ => {
+                            // main acquires after the spawns and releases after the joins
+                            let mut ch = vec![sect(kb, 0, None)];
+                            if let Some(k3) = third {
+                                ch.push(sect(k3, 0, None));
+                            }
+                            let at = ch.len();
+                            let s = sect(ka, at, None);
+                            out.push(with_main(&name, objs.clone(), vec![], ch, vec![s[0].clone()], vec![s[1].clone()]));
+                        }
+                    }
+                }
+            }
+        }
+    }
+    out
+}
+
+/// ARC-seq / ALLOC-seq: every well-formed *sequence* of reference-count / allocation operations
+/// of main alone, up to `depth` ops (no concurrency: one iteration each). The registries keyed by
+/// address (arcs, raw allocations) see an address released and handed out again within one
+/// execution; whatever is still alive at the end must be reported as leaked, and nothing else.
+pub fn arc_seq_family(depth: usize) -> Vec<Program> {
+    // state: handle slot -> arc id; arc id -> (count, forgotten)
+    #[derive(Clone)]
+    struct S {
+        h: [Option<usize>; 2],
+        cnt: [u32; 2],
+        ever: [bool; 2],
+    }
+    fn go(s: &S, ops: &mut Vec<Op>, depth: usize, out: &mut Vec<Program>) {
+        if !ops.is_empty() {
+            let objs = Objs { handles: 2, arcs: vec![None, None], ..Default::default() };
+            out.push(Program { name: "ARC-seq".into(), objs, threads: vec![ops.clone()] });
+        }
+        if ops.len() == depth {
+            return;
+        }
+        let mut next: Vec<(K, S)> = vec![];
+        for h in 0..2 {
+            let o = 1 - h;
+            match s.h[h] {
+                None => {
+                    // a fresh arc (lowest id that is not alive; a forgotten one stays alive)
+                    if let Some(a) = (0..2).find(|a| s.cnt[*a] == 0 && !(s.ever[*a] && ops.len() + 1 == depth)) {
+                        let mut n = s.clone();
+                        n.h[h] = Some(a);
+                        n.cnt[a] = 1;
+                        n.ever[a] = true;
+                        next.push((K::ArcNew { h, arc: a }, n));
+                    }
+                }
+                Some(a) => {
+                    let dec = |n: &mut S| {
+                        n.h[h] = None;
+                        n.cnt[a] -= 1;
+                    };
+                    let mut n = s.clone();
+                    dec(&mut n);
+                    next.push((K::ArcDrop { h }, n.clone()));
+                    next.push((K::ArcDecStrong { h }, n));
+                    let mut n = s.clone();
+                    n.h[h] = None;
+                    next.push((K::ArcForget { h }, n));
+                    next.push((K::ArcCount { h }, s.clone()));
+                    next.push((K::ArcGetMut { h }, s.clone()));
+                    next.push((K::ArcRawRoundTrip { h }, s.clone()));
+                    let mut n = s.clone();
+                    if s.cnt[a] == 1 {
+                        dec(&mut n);
+                    }
+                    next.push((K::ArcTryUnwrap { h }, n));
+                    if s.h[o].is_none() {
+                        let mut n = s.clone();
+                        n.h[o] = Some(a);
+                        n.cnt[a] += 1;
+                        next.push((K::ArcClone { from: h, to: o }, n.clone()));
+                        next.push((K::ArcIncStrong { h, to: o }, n));
+                    } else if h == 0 {
+                        next.push((K::ArcPtrEq { h: 0, h2: 1 }, s.clone()));
+                    }
+                }
+            }
+        }
+        for (k, n) in next {
+            ops.push(k.into());
+            go(&n, ops, depth, out);
+            ops.pop();
+        }
+    }
+    let mut out = vec![];
+    go(&S { h: [None, None], cnt: [0, 0], ever: [false, false] }, &mut vec![], depth, &mut out);
+    // the reference releases nothing implicitly except the handles still in their slots; keep
+    // only sequences that contain a release followed by a new allocation, or end alive (the
+    // rest is covered by the concurrent ARC family)
+    out.retain(|p| {
+        let ops = &p.threads[0];
+        let rel = ops.iter().position(|o| matches!(o.k, K::ArcDrop { .. } | K::ArcDecStrong { .. } | K::ArcTryUnwrap { .. }));
+        match rel {
+            Some(i) => ops[i + 1..].iter().any(|o| matches!(o.k, K::ArcNew { .. })),
+            None => false,
+        }
+    });
+    out
+}
+
+pub fn alloc_seq_family(depth: usize) -> Vec<Program> {
+    // slots: 2 raw allocations, 1 Track, 1 arc handle; slot state 0 empty, 1 live
+    fn go(st: [u8; 4], ops: &mut Vec<Op>, depth: usize, out: &mut Vec<Program>) {
+        if !ops.is_empty() {
+            let objs = Objs { handles: 1, arcs: vec![None], allocs: 2, tracks: 1, ..Default::default() };
+            out.push(Program { name: "ALLOC-seq".into(), objs, threads: vec![ops.clone()] });
+        }
+        if ops.len() == depth {
+            return;
+        }
+        let mut next: Vec<(K, [u8; 4])> = vec![];
+        for k in 0..2 {
+            let mut n = st;
+            if st[k] == 0 {
+                n[k] = 1;
+                next.push((K::Alloc { k }, n));
+            } else {
+                n[k] = 0;
+                next.push((K::Dealloc { k }, n));
+            }
+        }
+        let mut n = st;
+        if st[2] == 0 {
+            n[2] = 1;
+            next.push((K::TrackNew { k: 0 }, n));
+        } else if st[2] == 1 {
+            n[2] = 0;
+            next.push((K::TrackDrop { k: 0 }, n));
+            // a forgotten value stays leaked: the slot is not used again (the reference keeps one
+            // state per slot)
+            n[2] = 2;
+            next.push((K::TrackForget { k: 0 }, n));
+        }
+        let mut n = st;
+        if st[3] == 0 {
+            n[3] = 1;
+            next.push((K::ArcNew { h: 0, arc: 0 }, n));
+        } else {
+            n[3] = 0;
+            next.push((K::ArcDrop { h: 0 }, n));
+            next.push((K::ArcTryUnwrap { h: 0 }, n));
+            next.push((K::ArcRawRoundTrip { h: 0 }, st));
+        }
+        for (k, n) in next {
+            ops.push(k.into());
+            go(n, ops, depth, out);
+            ops.pop();
+        }
+    }
+    let mut out = vec![];
+    go([0; 4], &mut vec![], depth, &mut out);
+    out
+}
